@@ -7,7 +7,8 @@ import tempfile
 import time
 
 ROOT = os.path.dirname(os.path.dirname(os.path.abspath(__file__)))
-EVID = os.path.join(ROOT, "evidence")
+# (VERIF_EVIDENCE: development runs against a scratch copy of the sources must not overwrite the committed evidence)
+EVID = os.environ.get("VERIF_EVIDENCE", os.path.join(ROOT, "evidence"))
 REPLAYS = os.path.join(ROOT, "replays")
 KNOWN = os.path.join(ROOT, "known_findings.json")
 
